@@ -15,16 +15,18 @@ from ..model import src
 from ..report import Report, key_of
 from ..terms import dag_nodes, pretty
 from ..types import Ctx
-from .common import TRUSTED_BASE, cfg_nodes_for, effects_of, is_run_edge, where
+from .common import TRUSTED_BASE, bound_args, cfg_nodes_for, effects_of, inl, is_run_edge, subst_single_assign, where
 
 
 def provenance(t, old_names, new_names):
     """'old' | 'new' | 'both' | 'unknown' by the holes a path term mentions."""
     holes = set()
-    for x in dag_nodes(t):
+    ns = dag_nodes(t)
+    for x in ns:
         if x[0] == 'local' or x[0] == 'p':
             holes.add(x[1])
-    o = bool(holes & old_names)
+    # by name of the binding, or by construction: the chain built with parameter_mode=False is the old one
+    o = bool(holes & old_names) or any(x[0] == 'kw' and x[1] == 'parameter_mode' and x[2] == ('lit', False) for x in ns)
     n = bool(holes & new_names)
     if o and n:
         return 'both'
@@ -47,32 +49,40 @@ def run(A, R: Report, thorough: bool):
     params = f.params
     R.require(len(params) >= 3, 'anchor: migrate_to_parameter_mode(config, target_dir, dry, ...) signature changed')
     cfg_param, target_param, dry_param = params[0], params[1], params[2]
-    # names that denote the old / new side, from the function's own bindings
-    old_names, new_names = set(), {target_param}
-    for n in A.typer.own_nodes(f):
+    # names that denote the old / new side: by the value terms of their bindings (assignments, loop iterables)
+    binds = {}
+    for n, _o in A.nodes(f):
+        if _o is not f:
+            continue
         if isinstance(n, ast.Assign) and len(n.targets) == 1 and isinstance(n.targets[0], ast.Name):
-            v = src(n.value)
-            name = n.targets[0].id
-            if 'parameter_mode=False' in v:
-                old_names.add(name)
-            elif target_param in v:
-                new_names.add(name)
-    for n in A.typer.own_nodes(f):
-        if isinstance(n, ast.For):
-            it = src(n.iter)
-            if any(o in it for o in old_names):
-                for x in ast.walk(n.target):
-                    if isinstance(x, ast.Name):
-                        old_names.add(x.id)
-        if isinstance(n, ast.Assign) and len(n.targets) == 1 and isinstance(n.targets[0], ast.Name) and isinstance(n.value, ast.Subscript):
-            if src(n.value.value) in new_names:
-                new_names.add(n.targets[0].id)
-            elif src(n.value.value) in old_names:
-                old_names.add(n.targets[0].id)
+            binds.setdefault(n.targets[0].id, []).append(n.value)
+        elif isinstance(n, ast.For):
+            for x in ast.walk(n.target):
+                if isinstance(x, ast.Name):
+                    binds.setdefault(x.id, []).append(n.iter)
+    at = A.sym.terms_at(f, None, [e for es in binds.values() for e in es])
+    tp, cp = ('p', target_param), ('p', cfg_param)
+
+    def side(t):
+        ns = dag_nodes(t)
+        if tp in ns:
+            return 'new'
+        if cp in ns and any(x[0] == 'kw' and x[1] == 'parameter_mode' and x[2] == ('lit', False) for x in ns):
+            return 'old'
+        return None
+
+    old_names, new_names = set(), {target_param}
+    for name, es in binds.items():
+        sides = {side(t) for e in es for t in at.get(id(e), [])}
+        if sides == {'old'}:
+            old_names.add(name)
+        elif sides == {'new'}:
+            new_names.add(name)
     # the pairing key (loop variable `name`) is shared: it is not evidence of either side
-    shared = {x.id for n in A.typer.own_nodes(f) if isinstance(n, ast.For) for x in ast.walk(n.target) if isinstance(x, ast.Name)} & \
-             {src(n.value.slice) for n in A.typer.own_nodes(f) if isinstance(n, ast.Assign) and isinstance(n.value, ast.Subscript)}
+    shared = {src(n.value.slice) for n in A.typer.own_nodes(f) if isinstance(n, ast.Assign) and isinstance(n.value, ast.Subscript)} | \
+             {src(n.slice) for n in A.typer.own_nodes(f) if isinstance(n, ast.Subscript) and isinstance(n.slice, ast.Name)}
     old_names -= shared
+    new_names -= shared
     R.require(old_names and len(new_names) > 1, f'anchor: could not identify old/new chain bindings (old={sorted(old_names)}, new={sorted(new_names)})')
 
     # ---- R20.1
@@ -98,8 +108,27 @@ def run(A, R: Report, thorough: bool):
 
     # ---- R20.2
     R.rule('R20.2', 'copies read the old task\'s data path, write the new task\'s, and are guarded by not dry, old has data, new has none', floor=2)
-    copies = [e for e in evs if e.kind in ('FS_COPY', 'FS_RENAME') and e.ctx is not None and e.ctx.func is f]
+    helper_funcs = {o.qualname for _, o in A.nodes(f)}
+    copies = [e for e in evs if e.kind in ('FS_COPY', 'FS_RENAME') and e.ctx is not None and e.ctx.func.qualname in helper_funcs]
     R.require(copies, 'anchor: no copy call in migrate_to_parameter_mode')
+    loops = [n for n in A.typer.own_nodes(f) if isinstance(n, ast.For) and any(isinstance(x, ast.Name) and x.id in old_names for x in list(ast.walk(n.iter)) + list(ast.walk(n.target)))]
+    R.require(loops, 'anchor: loop over the old chain not found in migrate_to_parameter_mode')
+    heads = [n.id for n in cfg.nodes.values() if n.kind == 'for' and n.ast in loops]
+    starts = [v for h in heads for v in cfg.succ_by_label(h, 'loop')]
+    allnodes = list(cfg.nodes)
+
+    def has_data_edges(names, label):
+        out = []
+        for n in cfg.nodes.values():
+            if n.kind == 'edge' and n.label == label:
+                e = subst_single_assign(A, f, n.ast)
+                if isinstance(e, ast.Attribute) and e.attr == 'has_data' and isinstance(e.value, ast.Name) and e.value.id in names:
+                    out.append(n.id)
+        return out
+
+    g_dry = [n.id for n in cfg.nodes.values() if n.kind == 'edge' and n.label == 'F' and src(n.ast) == dry_param]
+    g_old = has_data_edges(old_names, 'T')
+    g_new = has_data_edges(new_names, 'F')
     for e in copies:
         construct = f'migrate_to_parameter_mode: `{src(e.site)[:60]}`'
         sp = provenance(e.source, old_names, new_names) if e.source is not None else 'unknown'
@@ -111,47 +140,45 @@ def run(A, R: Report, thorough: bool):
             problems.append(f'source derives from {sp}')
         if dp != 'new':
             problems.append(f'destination derives from {dp}')
-        for cn in cfg_nodes_for(cfg, e.site):
-            facts = [(src(a), pol) for a, pol in cfg.facts_at(cn.id)]
-            if (dry_param, False) not in facts:
-                problems.append(f'not guarded by `not {dry_param}`')
-            if not any(t.endswith('.has_data') and any(t.startswith(o + '.') for o in old_names) and pol for t, pol in facts):
-                problems.append('not guarded by the old task having data')
-            if not any(t.endswith('.has_data') and any(t.startswith(nn + '.') for nn in new_names) and not pol for t, pol in facts):
-                problems.append('not guarded by the new task having no data (a second migration would overwrite)')
-        R.check(not problems, 'R20.2', construct, key_of('copy', sorted(set(problems))), 'old -> new copy under all three guards', '; '.join(sorted(set(problems))), where=where(f, e.site))
+        site_nodes = [cn.id for cn in cfg_nodes_for(cfg, e.site)]
+        R.require(site_nodes, f'anchor: copy site `{src(e.site)[:40]}` not found in the control-flow graph of the migration')
+        for gates, msg in ((g_dry, f'not guarded by `not {dry_param}`'), (g_old, 'not guarded by the old task having data'),
+                           (g_new, 'not guarded by the new task having no data (a second migration would overwrite)')):
+            if not gates or cfg.find_path(starts, site_nodes, avoid=gates, no_exc_from=allnodes) is not None:
+                problems.append(msg)
+        R.check(not problems, 'R20.2', construct, key_of('copy', sorted(set(problems))), 'old -> new copy under all three guards', '; '.join(sorted(set(problems))), where=where(f, e.root_node))
 
     # ---- R20.2b nothing else skips a task
     R.rule('R20.2b', 'inside the migration loop a task is skipped only because it is in-memory, has no source data, or already has target data', floor=1)
-    loops = [n for n in A.typer.own_nodes(f) if isinstance(n, ast.For) and any(o in src(n.iter) for o in old_names)]
-    R.require(loops, 'anchor: loop over the old chain not found in migrate_to_parameter_mode')
-    n_skip = 0
-    for lp in loops:
-        for n in ast.walk(lp):
-            if isinstance(n, ast.If) and any(isinstance(b, ast.Continue) for b in n.body):
-                n_skip += 1
-                t = src(n.test)
-                ok = ('InMemoryData' in t and 'issubclass' in t) or t.endswith('.has_data') or (t.startswith('not ') and t.endswith('.has_data')) or t == dry_param
-                R.check(ok, 'R20.2b', f'migrate_to_parameter_mode: skip `{t[:60]}`', key_of('skip', t), 'legitimate skip',
-                        f'a task that has a stored result is skipped under `{t}`: its result is not carried over', where=where(f, n))
-    R.require(n_skip >= 2, 'anchor: expected the in-memory / no-data / already-there skips in the migration loop')
+    # a path from the loop body entry back to the loop head that passes no copy must have taken one of the legitimate exits:
+    # in-memory data class, no source data, target data already there, dry run
+    legit = list(g_dry and [n.id for n in cfg.nodes.values() if n.kind == 'edge' and n.label == 'T' and src(n.ast) == dry_param]) + has_data_edges(old_names, 'F') + has_data_edges(new_names, 'T') + \
+        [n.id for n in cfg.nodes.values() if n.kind == 'edge' and n.label == 'T' and isinstance(n.ast, ast.Call) and src(n.ast.func) == 'issubclass' and 'InMemoryData' in src(n.ast)]
+    copy_nodes = [cn.id for e in copies for cn in cfg_nodes_for(cfg, e.site)]
+    p = cfg.find_path(starts, heads, avoid=legit + copy_nodes, no_exc_from=allnodes)
+    R.check(p is None, 'R20.2b', 'migrate_to_parameter_mode: loop', key_of('skip', p is None), 'a task is skipped only for a legitimate reason',
+            'a task that has a stored result can be skipped for another reason: its result is not carried over', witness=cfg.describe_path(p) if p else None, where=where(f, loops[0]))
 
     # ---- R20.3
     R.rule('R20.3', 'the config rebuilt for the target dir carries the source config\'s file path, part, global vars and context', floor=1)
-    ctors = [n for n in A.typer.own_nodes(f) if isinstance(n, ast.Call) and src(n.func) == 'Config']
+    ctors = [n for n in inl(A, f) if isinstance(n, ast.Call) and src(n.func) == 'Config']
     R.require(ctors, 'anchor: no Config(...) construction in migrate_to_parameter_mode')
+    cinit = A.cls('Config').lookup('__init__')
     for c in ctors:
-        kws = {kw.arg: src(kw.value) for kw in c.keywords}
-        pos = [src(a) for a in c.args]
+        ba = bound_args(c, cinit) or {}
+        at3 = A.sym.terms_at(f, None, list(ba.values()))
+        got = {k_: at3.get(id(v), []) for k_, v in ba.items()}
         problems = []
-        if not (pos and pos[0] == target_param or kws.get('base_dir') == target_param):
+        if got.get('base_dir') != [tp]:
             problems.append('base dir is not the target dir')
-        uses_path = any('_filepath' in p for p in pos[1:]) or '_filepath' in kws.get('filepath', '')
-        if uses_path and '_part' not in kws.get('part', '') and not any('_part' in p for p in pos):
+        uses_path = got.get('filepath') == [('attr', cp, '_filepath')]
+        if uses_path and got.get('part') != [('attr', cp, '_part')]:
             problems.append('file path passed without `part`: a multi-config part resolves to the file\'s main part')
-        if 'global_vars' not in kws.get('global_vars', ''):
+        if not uses_path and got.get('filepath'):
+            problems.append('the rebuilt config does not use the source config\'s file')
+        if got.get('global_vars') != [('attr', cp, 'global_vars')]:
             problems.append('global_vars not propagated')
-        if 'context' not in kws.get('context', ''):
+        if got.get('context') != [('attr', cp, 'context')]:
             problems.append('context not propagated')
         R.check(not problems, 'R20.3', 'migrate_to_parameter_mode: Config(...)', key_of('config-identity', sorted(problems)), 'path, part, global_vars, context propagated', '; '.join(problems), where=where(f, c))
 
@@ -161,8 +188,15 @@ def run(A, R: Report, thorough: bool):
 
     # ---- R20.4
     R.rule('R20.4', 'old and new tasks are paired by full name; nothing in the migration can run a task', floor=2)
-    maps = [n for n in A.typer.own_nodes(f) if isinstance(n, ast.DictComp)]
-    key_ok = len(maps) >= 2 and all(src(m.key).endswith('.fullname') for m in maps)
-    R.check(key_ok, 'R20.4', 'migrate_to_parameter_mode: pairing', key_of('pairing', [src(m.key) for m in maps]), 'both chains keyed by fullname', f'chains are not both keyed by full name: {[src(m.key) for m in maps]}', where=where(f))
+    maps = []
+    for name, es in binds.items():
+        for e in es:
+            for t in at.get(id(e), []):
+                if t[0] == 'mapdict' and side(t) in ('old', 'new') and not isinstance(getattr(e, '_parent', None), ast.For):
+                    maps.append((name, t))
+    sides4 = {side(t) for _, t in maps}
+    key_ok = sides4 == {'old', 'new'} and all(t[2][0] == 'attr' and t[2][2] == 'fullname' and t[2][1] in t[1] and t[3] == t[2][1] for _, t in maps)
+    shown = [pretty(t[2]) for _, t in maps]
+    R.check(key_ok, 'R20.4', 'migrate_to_parameter_mode: pairing', key_of('pairing', shown), 'both chains keyed by fullname', f'chains are not both keyed by full name: {shown}', where=where(f))
     p = A.cg.find_path([ctx], is_run_edge(A))
     R.check(p is None, 'R20.4', 'migrate_to_parameter_mode: runs nothing', key_of('run-reachable'), 'run() unreachable', 'the migration can run a task', witness=show_path(p) if p else None, where=where(f))
